@@ -127,6 +127,7 @@ struct ApiGen {
 	bool hostile_strings = false;
 	bool getters = false;
 	bool print = false;
+	bool flip_title_case = false; // case-insensitive runs: titles also with the letter case flipped
 };
 
 // one random API step (setter / list / section / annotation ...) against the schema
